@@ -4,8 +4,9 @@ vocabulary walk of the converted schema."""
 from __future__ import annotations
 
 import copy
+import dataclasses
 import json
-from typing import Any, Callable, Dict, List, Optional
+from typing import Annotated, Any, Callable, Dict, List, Optional, Union
 
 from .. import infra
 from ..data import enumerate_data
@@ -395,6 +396,32 @@ def run_worlds(st):
                 check_versions(tp, data, f"world:{name}@settings.aliaser=camel", name, WORLD_SRC, f"world:{name}@settings.aliaser", False, st)
         finally:
             dc.world.restore_settings()
+        # keywords supplied by the user through schema(extra=...) next to a reference / a type array: converting to a dialect
+        # is repeatable (the same document at every generation) and leaves what the user supplied untouched
+        import copy
+
+        from apischema.json_schema import definitions_schema as _defs
+
+        extra_allof = {"allOf": [{"minProperties": 0}]}
+        extra_anyof = {"anyOf": [{"minimum": 0}]}
+        snap = copy.deepcopy((extra_allof, extra_anyof))
+        RecX = Annotated[m.RecNode, _schema(extra=extra_allof)]
+        MultiX = Annotated[Union[int, str, None], _schema(extra=extra_anyof)]
+        HoldX = dataclasses.make_dataclass("HoldX", [("r", RecX, dataclasses.field(default_factory=m.RecNode)), ("u", MultiX, dataclasses.field(default=None))])
+        for name, tp, data in (
+            ("RecX", RecX, [{}, {"value": 1}, {"children": [{"value": 2, "children": []}]}, {"value": "x"}, 3]),
+            ("MultiX", MultiX, [0, -1, "s", None, 1.5, []]),
+            ("HoldX", HoldX, [{}, {"r": {"value": 1}}, {"u": -1}, {"u": "s", "r": {"children": []}}, {"r": 3}]),
+        ):
+            check_versions(tp, data, "world:" + name + "@extra", name, WORLD_SRC, "world:" + name + "@extra", False, st)
+            for vname, version in VERSIONS.items():
+                for fn in (deserialization_schema, serialization_schema):
+                    st.case("world", "repeatable", name, vname, fn.__name__)
+                    docs = [json.dumps(fn(tp, version=version), sort_keys=True) for _ in range(3)]
+                    if len(set(docs)) != 1 or (extra_allof, extra_anyof) != snap:
+                        st.violation({"label": "world:" + name + "@extra", "options": [vname, fn.__name__], "signature": {"kind": "not_repeatable", "version": vname, "user_keywords_modified": (extra_allof, extra_anyof) != snap}, "what": f"{fn.__name__}({name}, version={vname}) generated three times gives {len(set(docs))} different documents; user-supplied extra now {extra_allof} / {extra_anyof}"[:500]})
+                        extra_allof["allOf"][:] = copy.deepcopy(snap[0]["allOf"])
+                        extra_anyof["anyOf"][:] = copy.deepcopy(snap[1]["anyOf"])
         # the conversion to a version is itself a serialization: global serialization settings must not leak into it
         from apischema import PassThroughOptions, settings
 
